@@ -301,7 +301,7 @@ def truth(t, st=None):
     if k == 'dict':
         return len(t[1]) > 0
     if k in ('func', 'class', 'funcref', 'bound', 'module', 'ext', 'builtin',
-             'lambda'):
+             'lambda', 'inst'):
         return True
     if k == 'unop' and t[1] == 'not':
         v = truth(t[2], st)
@@ -314,6 +314,38 @@ def truth(t, st=None):
         for c, pol in st.cond:
             if c == t:
                 return pol
+    return None
+
+
+def static_type(t):
+    """Coarse type of a term when it is evident: 'int' | 'text' (str or
+    bytes) | None."""
+    k = kind(t)
+    if k == 'const':
+        v = t[1]
+        if isinstance(v, bool):
+            return None
+        if isinstance(v, int):
+            return 'int'
+        if isinstance(v, (str, bytes)):
+            return 'text'
+        return None
+    if k == 'sub' and kind(t[1]) == 'call' and kind(t[1][2]) == 'attr' and \
+            t[1][2][2] in ('split', 'rsplit', 'partition', 'splitlines') and \
+            kind(t[2]) != 'slice':
+        return 'text'
+    if k == 'call':
+        if t[1] in ('binascii.hexlify', 'binascii.unhexlify', 'codecs.encode',
+                    'codecs.decode', 'str', 'repr', 'bytes'):
+            return 'text'
+        if t[1] == 'len':
+            return 'int'
+        if kind(t[2]) == 'attr' and t[2][2] in (
+                'strip', 'encode', 'decode', 'lower', 'upper', 'join',
+                'hexdigest', 'digest'):
+            return 'text'
+    if k == 'len':
+        return 'int'
     return None
 
 
@@ -1607,8 +1639,10 @@ class Interp:
             if t is True or kind(a) in ('list', 'dict', 'tuple', 'set',
                                         'func', 'class', 'funcref'):
                 return C(op == 'is not')
-        if op in ('in', 'not in') and okb and is_const(a):
-            pass
+        if op in ('==', '!='):
+            ta, tb = static_type(a), static_type(b)
+            if ta and tb and ta != tb and 'none' not in (ta, tb):
+                return C(op == '!=')
         return ('cmp', op, a, b)
 
     def ex_Tuple(self, n, st):
